@@ -35,6 +35,7 @@ Inductive fcode :=
 | FOp (op : nat)                                (* an operator node: free binary/unary constructor, truth = xor of operand truths *)
 | FMissing.                                     (* ArgExecNode without value: raises TawaziArgumentException *)
 
+Definition is_term (t : term) : bool := match t with TConst _ _ | TApp _ _ _ => true | _ => false end.
 Definition xor_truth (vs : list term) : bool := fold_left xorb (map t_truthy vs) false.
 Fixpoint mk_elems (f : nat) (i : nat) (truths : list bool) (vs : list term) : list term :=
   match truths with [] => [] | b :: r => TApp f b (TConst i true :: vs) :: mk_elems f (S i) r vs end.
@@ -51,7 +52,14 @@ Definition apply_fcode (fc : fcode) (vs : list term) : option term :=
   | FAnd => match vs with [a; b] => Some (if t_truthy a then b else a) | _ => None end
   | FOr => match vs with [a; b] => Some (if t_truthy a then a else b) | _ => None end
   | FNot => match vs with [a] => Some (TBool (negb (t_truthy a))) | _ => None end
-  | FOp op => Some (TApp op (xor_truth vs) vs)
+  | FOp op =>
+      (* a free constructor; Python dispatches to the left operand's operator when it is a term, else to
+         the right operand's reflected operator (same operand order for arithmetic); raises otherwise *)
+      match vs with
+      | [a] => if is_term a then Some (TApp op (xor_truth vs) vs) else None
+      | [a; b] => if is_term a || is_term b then Some (TApp op (xor_truth vs) vs) else None
+      | _ => None
+      end
   | FMissing => None
   end.
 
@@ -77,7 +85,7 @@ Definition enc_opt (o : option term) : list nat := match o with Some t => 1 :: e
 
 Definition t_rd := rd term TNone t_index.
 Definition t_den (specs : list (nat * nspec)) (c : cfg) (res0 : results term) :=
-  den_eval term TNone t_truthy t_index (spec_tbl specs) c res0.
+  den_eval_fast term TNone t_truthy t_index (spec_tbl specs) c res0.
 Definition t_vrun (specs : list (nat * nspec)) (c : cfg) (res0 : results term) (ls : list label) :=
   vrun term TNone t_truthy t_index (spec_tbl specs) c (init c, res0) ls.
 
